@@ -13,6 +13,8 @@ open Nb.Py Nb.Py.V
 abbrev SLoc := Gen.C06F.slicers2segments_Locals
 
 @[simp] theorem ofSegs_nil : ofSegs [] = .nil := rfl
+@[simp] theorem asList_ofSegs (l : List Segment) : asList (ofSegs l) = .ok (ofSegs l) := by
+  simp [ofSegs]
 theorem ofSegs_append (a b : List Segment) : ofList (a.map ofSeg ++ b.map ofSeg) = ofSegs (a ++ b) := by
   simp [ofSegs]
 
